@@ -45,7 +45,7 @@ def gen_cases(rng, n, nproc):
     cases = []
     for i in range(n):
         kind = C07_KINDS[i % len(C07_KINDS)] if i < 2 * len(C07_KINDS) else rng.choice(C07_KINDS)
-        prog = st.gen_program(rng, kind)
+        prog = st.gen_program(rng, kind, mismatch=True)  # region stores also with source chunks != target chunks (rechunk inserted)
         ex = "single-threaded" if rng.random() < 0.2 else "threads"
         cases.append((prog, st.gen_config(rng, ex)))
     for i in range(nproc):
